@@ -456,6 +456,20 @@ func checkWrapper(c *Ctx, w *ssa.Function, pr XProc, key string) {
 				ok = false
 			}
 		}
-		R.Check(ok, "C16.X4", key+"|args.Error() checked", P.Pos(w.Pos()), "the handler is called only when the argument decoder reported no error", "dominated by args.Error() == nil", "a truncated or malformed argument reaches the handler half-decoded instead of being rejected as GARBAGE_ARGS")
+		// ... and the early exit hands that error on: a return that is not reached through the handler call
+		// returns the decoder's error, not nil (nil = "success, empty result")
+		if ok {
+			for _, b := range w.Blocks {
+				r, isR := b.Instrs[len(b.Instrs)-1].(*ssa.Return)
+				if !isR || len(r.Results) != 2 || invoke.Block().Dominates(b) {
+					continue
+				}
+				ev := r.Results[1]
+				if !(bwdSources(ev)[errCall] || stripConv(ev) == ssa.Value(errCall)) {
+					ok = false
+				}
+			}
+		}
+		R.Check(ok, "C16.X4", key+"|args.Error() checked", P.Pos(w.Pos()), "the handler is called only when the argument decoder reported no error, and otherwise that error is returned", "dominated by args.Error() == nil; the early return carries the error", "a truncated or malformed argument reaches the handler half-decoded, or is answered as a success with an empty body, instead of being rejected as GARBAGE_ARGS")
 	}
 }
